@@ -10,6 +10,7 @@ later stages still mostly make sense.  All randomness comes from the one random.
 """
 import collections
 import copy
+import datetime as _dt
 
 import gen
 import gen_expr
@@ -23,6 +24,27 @@ OTHER_HANDLERS = ['$sample', '$out', '$graphLookup']
 SORT_FIELDS = ['a', 'b', 's', 'k', 'g', 'f', 't', 'l', 'd.n', '_id', 'zz', 'x', 'm', 'q.n', 'u']
 PROJ_FIELDS = ['a', 'b', 's', 'u', 'f', 'l', 'm', 't', 'd', 'x', 'q', 'k', 'g', 'zz']
 PROJ_DOTTED = ['d.n', 'd.s', 'd.l', 'q.n', 'q.p', 'd.zz', 'x.n', 'a.b', 'd.n.z']
+
+
+ODD_TZ = _dt.timezone(_dt.timedelta(hours=5, minutes=30))
+
+
+def oddify(v, r):
+    """the same pipeline with its datetimes written the way a caller may write them: with
+    microseconds below the millisecond, or timezone-aware (same instant up to the millisecond) —
+    `Collection.aggregate` reads them as UTC milliseconds"""
+    if isinstance(v, dict):
+        return type(v)((k, oddify(x, r)) for k, x in v.items())
+    if isinstance(v, list):
+        return [oddify(x, r) for x in v]
+    if isinstance(v, _dt.datetime) and v.tzinfo is None:
+        x = r.random()
+        if x < 0.4:
+            return v + _dt.timedelta(microseconds=r.choice([1, 456, 999]))
+        if x < 0.8:
+            return (v + _dt.timedelta(hours=5, minutes=30)).replace(tzinfo=ODD_TZ)
+        return (v + _dt.timedelta(hours=5, minutes=30, microseconds=456)).replace(tzinfo=ODD_TZ)
+    return v
 
 
 class PipeGen(object):
@@ -74,6 +96,13 @@ class PipeGen(object):
     # -- stages ---------------------------------------------------------------------------------
     def st_match(self, docs):
         x = self.r.random()
+        if x < 0.05:
+            # a datetime written in the filter, against the stored ones
+            op = self.r.choice(['$gt', '$gte', '$lt', '$lte', '$ne', '$eq', '$in', None])
+            v = self.r.choice(gen_expr.DATES)
+            if op == '$in':
+                v = [v, self.r.choice(gen_expr.DATES)]
+            return {'$match': {'t': v if op is None else {op: v}}}
         if x < 0.12:
             e, _ = self.eg.top('bool')
             return {'$match': {'$expr': e}}
@@ -223,7 +252,7 @@ class PipeGen(object):
         if x < 0.65:
             return None
         if x < 0.72:
-            return self.r.choice([0, '', 1, 'all', False, True, {}, []])
+            return self.r.choice([0, '', 1, 'all', False, True, {}, [], gen_expr.DATES[1]])
         if x < 0.9:
             return self.r.choice(['$a', '$b', '$f', '$s', '$d.n', '$zz', '$t', '$x', '$d', '$l'])
         return self.eg.top(self.r.choice(['num', 'str', 'bool']))[0]
@@ -289,7 +318,8 @@ class PipeGen(object):
                                   'd.l', 'n.m.o'])
             spec[name] = self.eg.top()[0] if self.r.random() < 0.8 else \
                 self.r.choice([1, 0, True, None, 'lit', '$d', '$$ROOT', [1, 2], {'n': '$a'},
-                               '$d.n', '$d.z'])
+                               '$d.n', '$d.z', gen_expr.DATES[0], {'$literal': gen_expr.DATES[1]},
+                               {'n': gen_expr.DATES[2]}])
         if self.r.random() < 0.03:
             spec = self.r.choice([{}, None, 'a', 5, []])
         elif self.r.random() < 0.12:
@@ -400,6 +430,10 @@ class PipeGen(object):
                            'project', 'project', 'unwind', 'unwind'])
         self.stages['simple:' + k] += 1
         r = self.r
+        if k == 'match' and r.random() < 0.1:
+            op = r.choice(['$gt', '$gte', '$lt', '$lte', '$ne', '$eq', None])
+            v = r.choice(gen_expr.DATES)
+            return {'$match': {'t': v if op is None else {op: v}}}
         if k == 'match':
             f = r.choice(['a', 'b', 'g', 's', '_id', 'd.n', 'f', 'u'])
             op = r.choice(['$gt', '$gte', '$lt', '$lte', '$ne', '$eq', '$in', '$exists', None])
@@ -440,15 +474,23 @@ class PipeGen(object):
             o['includeArrayIndex'] = 'i'
         return {'$unwind': o}
 
+    def odd_dates(self, pipeline):
+        # now and then the datetimes of the pipeline are not in stored form
+        if self.r.random() < 0.1:
+            self.stages['odd dates'] += 1
+            return oddify(pipeline, self.r)
+        return pipeline
+
     def simple_case(self):
         docs = self.docs()
         n = self.r.choice([1, 2, 2, 3, 3, 4])
         return {'docs': docs, 'other': self.other_docs(),
-                'pipeline': [self.simple_stage(docs) for _ in range(n)]}
+                'pipeline': self.odd_dates([self.simple_stage(docs) for _ in range(n)])}
 
     def case(self):
         docs = self.docs()
-        return {'docs': docs, 'other': self.other_docs(), 'pipeline': self.pipeline(docs)}
+        return {'docs': docs, 'other': self.other_docs(),
+                'pipeline': self.odd_dates(self.pipeline(docs))}
 
 
 def stage_names(pipeline):
